@@ -2323,6 +2323,18 @@ def inline_expressions(ix, f, fn, keep=frozenset(), depth=3):
                     mapping = dict(mapping)
                     mapping[first[0]] = node.func.value          # a method of a local object: self is that object
                     allp = list(allp) + [first[0]]
+            elif isinstance(node.func, ast.Attribute) and isinstance(node.func.value, ast.Attribute) and simple(node.func.value) and getattr(g, "cls", None):
+                # a method of a named object of a module (an Enum member `Kind.MEMBER.method(..)`): self is that object
+                first = [a.arg for a in gnode.args.posonlyargs + gnode.args.args][:1]
+                if first and first[0] in ("self", "cls") and not u(node.func.value).startswith(("self.", "cls.")):
+                    mapping = dict(mapping)
+                    mapping[first[0]] = node.func.value
+                    allp = list(allp) + [first[0]]
+            # a method body that speaks of its own object can only be read into a caller that names that object
+            if getattr(g, "cls", None) and g.cls != f.cls:
+                first = [a.arg for a in gnode.args.posonlyargs + gnode.args.args][:1]
+                if first and first[0] in ("self", "cls") and first[0] not in mapping and any(isinstance(x, ast.Name) and x.id == first[0] for x in ast.walk(ret)):
+                    return node
             uses = {}
             for x in ast.walk(ret):
                 if isinstance(x, ast.Name):
@@ -2987,6 +2999,7 @@ def normal_form(ix, f, keep):
         lambda t: propagate_tuple_locals(t),
         lambda t: desugar_match(t),
         lambda t: inline_expressions(ix, f, t, keep=keep),
+        lambda t: fold_enum_members(ix, f, t),
         lambda t: fold_constants(t, consts, single),
         lambda t: fold_stdlib(ix, f, t, consts, single),
         lambda t: fold_membership_get(t),
@@ -3659,5 +3672,40 @@ def hoist_pipeline_calls(fn):
             out.append(s)
         return out
     fn.body = rewrite(fn.body)
+    ast.fix_missing_locations(fn)
+    return fn
+
+
+def fold_enum_members(ix, f, fn):
+    """`Kind.MEMBER.value` / `.name` of an Enum class of the package whose member is bound to a constant is that constant"""
+    def enum_class(name):
+        q = ix.resolve_name(f.mod, name)
+        c = ix.classes.get(q) if q else None
+        node = getattr(c, "node", c)
+        if isinstance(node, ast.ClassDef) and any(u(b).split(".")[-1] in ("Enum", "IntEnum", "StrEnum", "Flag") for b in node.bases):
+            return node
+        return None
+
+    class T(ast.NodeTransformer):
+        def visit_Attribute(self, n):
+            self.generic_visit(n)
+            if n.attr in ("value", "name") and isinstance(n.value, ast.Attribute) and isinstance(n.value.value, ast.Name) and isinstance(n.ctx, ast.Load):
+                c = enum_class(n.value.value.id)
+                if c is not None:
+                    for s in c.body:
+                        if isinstance(s, ast.Assign) and len(s.targets) == 1 and isinstance(s.targets[0], ast.Name) and s.targets[0].id == n.value.attr:
+                            if n.attr == "name":
+                                return ast.copy_location(ast.Constant(value=s.targets[0].id), n)
+                            v = s.value
+                            if isinstance(v, ast.Constant):
+                                return ast.copy_location(ast.Constant(value=v.value), n)
+                            if isinstance(v, (ast.Tuple, ast.BinOp, ast.JoinedStr)):
+                                try:
+                                    return ast.copy_location(ast.Constant(value=ast.literal_eval(v)), n)
+                                except Exception:
+                                    if isinstance(v, ast.BinOp):
+                                        return ast.copy_location(copy.deepcopy(v), n)
+            return n
+    fn = T().visit(fn)
     ast.fix_missing_locations(fn)
     return fn
